@@ -226,7 +226,14 @@ func (e *Stack) Unwind() []error {
 // through the errors (without Stack object wrappers.)  The output
 // function yields errors: the boolean return
 func (e *Stack) CheckProducer() func() (error, bool) {
-	iter := &Stack{next: e}
+	iter := &Stack{}
+	if e != nil {
+		// Push modifies the head of the stack in place (only the
+		// elements behind it are immutable), so iterate from a
+		// copy of the head: the producer must not observe (or
+		// repeat) errors because of a later Push.
+		iter.next = &Stack{next: e.next, err: e.err}
+	}
 	return func() (error, bool) {
 		if iter.next == nil || iter.next.err == nil {
 			return nil, false
